@@ -536,6 +536,59 @@ class Generator:
             rules.append("R5 clone_from: %s" % m.group(0))
             return "%s = %s.clone()" % (m.group(1), m.group(2))
         body = rx.sub(r5, body)
+        body = self._desugar_continue(body, rules)
+        return body
+
+    def _desugar_continue(self, body, rules):
+        """R6: inside a loop body `{ PRE if COND { continue; } REST }`  ->  `{ PRE if COND { } else { REST } }`
+        (Verus: "for-loops do not yet support continue").  Applied only when `continue;` is the sole
+        statement of an `if` block that sits directly in a loop body; semantics are unchanged."""
+        for _ in range(8):
+            toks = code_tokens(lex(body))
+            pairs = match_brackets(toks)
+            hit = None
+            for i in range(len(toks) - 3):
+                if toks[i].text == "{" and toks[i + 1].text == "continue" and toks[i + 2].text == ";" and toks[i + 3].text == "}":
+                    hit = i
+                    break
+            if hit is None:
+                return body
+            # enclosing block
+            depth, enc = 0, None
+            for k in range(hit - 1, -1, -1):
+                t = toks[k].text
+                if t in ("}", ")", "]"):
+                    depth += 1
+                elif t in ("{", "(", "["):
+                    if depth == 0:
+                        enc = k
+                        break
+                    depth -= 1
+            if enc is None or toks[enc].text != "{":
+                raise AnchorLost("`continue` outside the supported shape (R6)")
+            # the enclosing block must be a loop body: walk back to a for/while/loop keyword without crossing ; or }
+            k, is_loop = enc - 1, False
+            while k >= 0:
+                t = toks[k]
+                if t.text in (")", "]"):
+                    k = pairs[k] - 1
+                    continue
+                if t.text in (";", "}", "{"):
+                    break
+                if t.kind == "id" and t.text in ("for", "while", "loop"):
+                    is_loop = True
+                    break
+                k -= 1
+            if not is_loop:
+                raise AnchorLost("`continue` inside a nested block is not supported (R6)")
+            # the `if` must be a plain `if COND {continue;}` with no else
+            close_if = hit + 3
+            if close_if + 1 < len(toks) and toks[close_if + 1].text == "else":
+                raise AnchorLost("`continue` in an if/else is not supported (R6)")
+            enc_close = pairs[enc]
+            rest = body[toks[close_if].end:toks[enc_close].start]
+            body = body[:toks[hit].start] + "{ } else {" + rest + "}" + body[toks[enc_close].start:]
+            rules.append("R6 `if C { continue; } REST` -> `if C { } else { REST }` in a loop body")
         return body
 
     def _splice_loops(self, body, loops, it):
